@@ -1,34 +1,78 @@
 /-
   Ark.Proofs.GenBridge.Table — capacity decisions of table.go.
-  Ties definitions REGENERATED from the Go source (tools/extract, on every run) to the
-  hand-written model: the model's definition is proved equal to what the code says now, for all
-  inputs. A change of the Go logic changes the generated definition and breaks these theorems (a
-  harmless rewrite, e.g. commuted conjuncts, still passes: the proofs are case analyses, not
-  syntactic equalities). One file per source fragment group, so that an untranslatable fragment
-  affects only the properties that depend on it.
+  `table.Extend`, `table.Shrink` and `table.CanShrink` are translated statement by statement from the Go
+  source on every run (tools/extract/book.go → Ark/Generated/BookTableCaps.lean; `adjustCapacity(c)` is
+  modelled as the assignment `cap := c`, `capPow2` as the model's function of that name) and proved to
+  decide and to set the capacity exactly as the model's `Table.extend` / `shrink` / `canShrink` do, for
+  all tables.  A changed condition or target changes the generated definition and breaks these
+  theorems; a harmless rewrite (an inverted condition, `Shrink` calling `CanShrink`) still passes: the
+  proofs are case analyses, not syntactic equalities, and helpers that are not translation targets are
+  inlined.
 -/
-import Ark.Generated.TableCaps
+import Ark.Generated.BookTableCaps
 import Ark.Model.Table
 
 namespace Ark.GenBridge
-open Ark
+open Ark Ark.Generated.Book
 
-/-- `table.Extend` re-allocates exactly when the model does -/
-theorem tableExtend_eq (t : Table) (n : Nat) :
-    t.extend n = if Generated.tableExtend_noop t.len t.cap n then t else t.adjustCapacity (capPow2 (t.len + n)) := by
-  unfold Table.extend Generated.tableExtend_noop
-  rfl
+/-- the bookkeeping fields of the model's table as the structure generated from the Go struct -/
+def capsOf (t : Table) (g : G_table) : Prop := g.len = t.len ∧ g.cap = t.cap
 
-/-- `table.Shrink` / `table.CanShrink` decide as the model does -/
-theorem tableShrink_eq (t : Table) (m : Nat) :
-    t.shrink m = if Generated.tableShrink_noop t.cap (max (capPow2 t.len) m) then (t, false)
-                 else (t.adjustCapacity (max (capPow2 t.len) m), true) := by
-  unfold Table.shrink Generated.tableShrink_noop
-  rfl
+/-- `table.Extend` as in the source: same capacity as the model's `extend`, `len` untouched -/
+theorem tableExtend_eq (t : Table) (g : G_table) (h : capsOf t g) (n : Nat) :
+    capsOf (t.extend n) (table_Extend g n) := by
+  obtain ⟨hl, hc⟩ := h
+  unfold table_Extend Table.extend capsOf
+  by_cases hge : t.cap ≥ t.len + n
+  · have h1 : ¬ (t.len + n > t.cap) := by omega
+    have h2 : ¬ (t.cap < t.len + n) := by omega
+    have h3 : t.len + n ≤ t.cap := by omega
+    simp [hl, hc, hge, h1, h2, h3]
+  · have h1 : t.len + n > t.cap := by omega
+    have h2 : t.cap < t.len + n := by omega
+    have h3 : ¬ (t.len + n ≤ t.cap) := by omega
+    simp [hl, hc, hge, h1, h2, h3, Table.adjustCapacity]
 
-theorem tableCanShrink_eq (t : Table) (m : Nat) :
-    t.canShrink m = decide (Generated.tableCanShrink t.cap (max (capPow2 t.len) m)) := by
-  unfold Table.canShrink Generated.tableCanShrink
-  rfl
+/-- `table.Shrink` as in the source: same result flag and same capacity as the model's `shrink` -/
+theorem tableShrink_eq (t : Table) (g : G_table) (h : capsOf t g) (m : Nat) :
+    capsOf (t.shrink m).1 (table_Shrink g m).1 ∧ (table_Shrink g m).2 = (t.shrink m).2 := by
+  obtain ⟨hl, hc⟩ := h
+  unfold table_Shrink Table.shrink capsOf
+  have hmax : Nat.max (capPow2 t.len) m = max (capPow2 t.len) m := rfl
+  by_cases hle : t.cap ≤ max (capPow2 t.len) m
+  · have h1 : ¬ (t.cap > max (capPow2 t.len) m) := by omega
+    have h2 : ¬ (max (capPow2 t.len) m < t.cap) := by omega
+    have h3 : max (capPow2 t.len) m ≥ t.cap := by omega
+    simp [table_CanShrink, hl, hc, hmax, hle, h1, h2, h3]
+  · have h1 : t.cap > max (capPow2 t.len) m := by omega
+    have h2 : max (capPow2 t.len) m < t.cap := by omega
+    have h3 : ¬ (max (capPow2 t.len) m ≥ t.cap) := by omega
+    simp [table_CanShrink, hl, hc, hmax, hle, h1, h2, h3, Table.adjustCapacity]
+
+/-- `table.CanShrink` as in the source decides as the model's `canShrink` -/
+theorem tableCanShrink_eq (t : Table) (g : G_table) (h : capsOf t g) (m : Nat) :
+    table_CanShrink g m = t.canShrink m := by
+  obtain ⟨hl, hc⟩ := h
+  have hs := (tableShrink_eq t g ⟨hl, hc⟩ m).2
+  unfold table_CanShrink Table.canShrink
+  have hmax : Nat.max (capPow2 t.len) m = max (capPow2 t.len) m := rfl
+  by_cases hle : t.cap ≤ max (capPow2 t.len) m
+  · have h1 : ¬ (t.cap > max (capPow2 t.len) m) := by omega
+    have h2 : ¬ (max (capPow2 t.len) m < t.cap) := by omega
+    simp [hl, hc, hmax, hle, h1, h2]
+  · have h1 : t.cap > max (capPow2 t.len) m := by omega
+    have h2 : max (capPow2 t.len) m < t.cap := by omega
+    simp [hl, hc, hmax, hle, h1, h2]
+
+/-- `CanShrink` is true exactly when `Shrink` would do something (source level) -/
+theorem tableCanShrink_iff_shrinks (t : Table) (g : G_table) (h : capsOf t g) (m : Nat) :
+    table_CanShrink g m = (table_Shrink g m).2 := by
+  rw [tableCanShrink_eq t g h m, (tableShrink_eq t g h m).2]
+  unfold Table.canShrink Table.shrink
+  by_cases hle : t.cap ≤ max (capPow2 t.len) m
+  · have h1 : ¬ (t.cap > max (capPow2 t.len) m) := by omega
+    simp [hle, h1]
+  · have h1 : t.cap > max (capPow2 t.len) m := by omega
+    simp [hle, h1]
 
 end Ark.GenBridge
